@@ -245,8 +245,9 @@ def worker(args):
                                         ri + 1, texts[ri], useful_first[ri][2], useful_first[ri][0],
                                         useful_first[ri][1]), b, None))
         elif not w and not uf and not relaxed:
-            if ri in empty_first:
-                # known finding K02: the rule wins only the empty match at a start state
+            if ri in empty_first and case["opts"].get("nodefault"):
+                # known finding K02 (only with the default rule suppressed, see F55): the rule
+                # wins only the empty match at a start state
                 out["problems"].append(("missing-warning-empty", "rule %d (%s) only ever wins with "
                                         "the empty match at the start state of condition %d, which "
                                         "a longer match always beats; flex is silent" % (
